@@ -32,6 +32,8 @@ func init() {
 			{"C05/spnego", "SPNEGO transposition copies the library's verdict and name", c05Spnego},
 			{"C05/ntlm-contexts", "the NTLM verifier remembers session contexts in the context cache only (C14's holder rule, as it gates this endpoint)", func(c *Ctx) { c14ContextHoldersAs(c, "C05/ntlm-contexts") }},
 			{"C05/ntlm-verifier", "the NTLM verifier keeps a server context only while a challenge is outstanding (C14's context rule, as it gates this endpoint)", func(c *Ctx) { c14ContextScopeAs(c, "C05/ntlm-verifier") }},
+			{"C05/config-tags", "the configuration fields this property depends on are read from the documented keys: koanf tag = lower-cased field name", func(c *Ctx) { configTags(c, "C05/config-tags", map[string][]string{"Configuration": {"Server"}, "ServerConfig": {"Authentication", "AuthSocket", "BasicAuthTimeout"}}) }},
+			{"C05/challenge-headers", "the 401 answer offers every registered scheme: challenges are added to the WWW-Authenticate header, not set", c05ChallengeHeaders},
 		},
 	})
 }
